@@ -17,12 +17,20 @@ CHECKS = {
          "tasks are polled only after their waker fired, so a lost wakeup is a reachable stuck state; all executions within the bound end with every call resolved and no enabled work left undone", "5/C02", "mc"),
  "C03": ("model_checking", "stateless deviation-bounded DFS incl. parking inside the call guard's drop (yield hooks)",
          "abandonment at every suspension point x parking between close() and cancel() x capacity/transport states x peer policy; wire-level rules R1-R4 on every execution", "5/C03", "mc"),
+ "C04": ("model_checking", "stateless deviation-bounded DFS over cancel position x handler stage x limit x sink state on the real server channel; differential rerun for stray cancels",
+         "after the channel poll that read Cancel(id) for a tracked request its handler is never polled again, is dropped by quiescence, no response follows, in_flight excludes it; cancels for unknown/finished ids change nothing (requests and execute routes)", "5/C04", "mc"),
  "C05": ("model_checking", "stateless deviation-bounded DFS over schedules and virtual-clock steps {D-1ms, D, D+1ms}",
          "deadline grid x clock stepping x reply/timer order x queueing on the real dispatch with a hooked virtual clock: never early, reply-before-deadline wins, resolved once D+1ms has passed", "5/C05", "mc"),
+ "C06": ("model_checking", "stateless deviation-bounded DFS over deadline grid x virtual-clock steps x handler completion order x limit x blocked sink",
+         "handlers are never aborted before their deadline; once a channel poll has run at >= D+1ms the handler makes no progress and nothing is sent for it; other requests untouched", "5/C06", "mc"),
+ "C08": ("model_checking", "stateless deviation-bounded DFS over peer sequences (fresh/duplicate/reused ids, cancels, eof, channel drop) x completion orders",
+         "one offer per request read unless its id is tracked; at most one response per request instance, only after its handler finished and before cancel/drop; every response matches a request read on the channel", "5/C08", "mc"),
  "C10": ("model_checking", "stateless deviation-bounded DFS over handle drops, peer close and abandonment",
          "handle drop / peer close at every step: owed cancels precede the single close, nothing after close, prompt stop on EOF with all calls failing", "5/C10", "mc"),
  "C11": ("model_checking", "stateless deviation-bounded DFS with in-flight/timer accessors after every dispatch poll",
          "tracked count bounded by the configured maximum and by the wire-derived count at every poll; zero entries and zero timers at frozen-clock quiescence once all calls ended, over runs that reuse slots", "5/C11", "mc"),
+ "C12": ("model_checking", "stateless deviation-bounded DFS over L in 0..3 x arrivals/cancels/duplicates x completion and write order x sink state against a counting reference model",
+         "a request is handed over only below the limit, refused (exactly one WouldBlock reply, never executed) only at the limit, duplicates ignored", "5/C12", "mc"),
  "C14": ("model_checking", "stateless deviation-bounded DFS over three transport flavours with a Sink-contract monitor on the call log",
          "ready-before-send, no write after close/error, no idle with unflushed items, no retry inside one poll, on every execution within the bound", "5/C14", "mc"),
  "C18": ("model_checking", "stateless deviation-bounded DFS with distinct caller trace contexts; wire-level trace oracle",
